@@ -136,3 +136,13 @@ class _Arr(V):
 
     def __init__(self, e):
         self.e = e
+
+
+@R.lemma("C13:tracked-resources-frame", props=("C13",))
+def tracked_resources_frame(E):
+    """the set of resources tracked on a connection is written only by track_resource / untrack_resource (user-facing API of the call context), the connection's
+    constructor and its close()"""
+    from contracts.frames import frame_obligations
+    frame_obligations(E, "connection cleanup", {"tracked_resources": {
+        "Pyro5/callcontext.py:_CallContext.track_resource", "Pyro5/callcontext.py:_CallContext.untrack_resource",
+        "Pyro5/socketutil.py:SocketConnection.__init__", "Pyro5/socketutil.py:SocketConnection.close"}})
